@@ -158,6 +158,23 @@ func c19Run(disk *Disk, ops []c19Op, window uint64, crashBefore int, m *c19Model
 			m.last = op.Height
 			m.hasAny = true
 			m.forget(window)
+		case "bulk": // op.Height consecutive accepts starting at op.Window (a long-running node)
+			for h := op.Window; h < op.Window+op.Height; h++ {
+				b := mkBlock(h, 0)
+				if err := ci.UpdateLastAccepted(ctx, b); err != nil {
+					if db.Dead() {
+						return nil, i, true, window
+					}
+					return &simk.Violation{Class: "C19/accept-fails", Detail: fmt.Sprintf("op %d: recording accepted block %d of a run of consecutive accepts failed: %v", i, h, err)}, i, false, window
+				}
+				m.stored[h] = b
+				m.last = h
+				m.hasAny = true
+				if h%64 == 0 {
+					m.forget(window)
+				}
+			}
+			m.forget(window)
 		case "historical":
 			b := mkBlock(op.Height, 0)
 			if err := ci.SaveHistorical(b); err != nil {
@@ -216,6 +233,18 @@ func c19(r *simk.Run) *simk.Violation {
 	}
 	interesting := false
 	stored := map[uint64]bool{}
+	// long-running node (3% of the runs; no crash enumeration): thousands of blocks under a large window, then
+	// a restart with a small one -- the startup cleanup has to remove every block that left the window
+	long := c.Bool(0.03)
+	if long {
+		window = []uint64{5000, 0, 3000}[c.Intn(3)]
+		n := uint64(1030 + c.Intn(2200))
+		ops = append(ops, c19Op{Kind: "bulk", Height: n, Window: next})
+		next += n
+		ops = append(ops, c19Op{Kind: "restart", Window: []uint64{1, 5, 10, 2}[c.Intn(4)]})
+		interesting = true
+		nOps = len(ops) + c.Intn(4)
+	}
 	for tries := 0; len(ops) < nOps && tries < 300; tries++ {
 		switch c.Weighted(8, 2, 2, 2, 1) {
 		case 4: // the last accepted block is recorded again (the same sync target after a restart)
@@ -272,6 +301,10 @@ func c19(r *simk.Run) *simk.Violation {
 		return v
 	}
 	W := disk.Writes
+	if long {
+		W = 0 // thousands of writes: the fault-free run is the check
+		s.Probe("long_chain_then_smaller_window")
+	}
 	// crash before every durable write, restart, finish the history
 	for k := 0; k < W; k++ {
 		d := NewDisk()
